@@ -76,6 +76,12 @@ pub fn run(args: &[String]) {
         let (first, maxstep, nmax) = if stiff_exit { (None, None, 100_000) } else if huge { (Some([1.0, 0.25, 10.0][(id / 40) % 3]), None, 100_000) } else { (first, maxstep, nmax) };
         let _ = back;
         let h4 = sgn * span / (3.0 + rng.below(40) as f64 + if rng.chance(0.5) { 0.37 } else { 0.0 });
+        // directed: RK4 far from the origin with a fixed step below one rounding error of x (the stagnation guard)
+        let stuck = id % 40 == 17;
+        let (method, x0, xend, h4) = if stuck {
+            let (a, sp, hh) = [(1e15, 1.0, 0.01), (1.0, 8.0 * f64::EPSILON, 1e-17), (-1e15, -8.0, -0.05), (1e8, 1e-7, 1e-9)][(id / 40) % 4];
+            (Method::RK4, a, a + sp, hh)
+        } else { (method, x0, xend, h4) };
         // script
         let mut script: Vec<(usize, Reply)> = vec![];
         let mut script_s: Vec<String> = vec![];
